@@ -90,6 +90,8 @@ def validate_cvxpy(wrapper, rec, rng):
                 F("cvxpy_constraint_wrong_denotation", "emitted cvxpy constraint evaluates to %.12g, symbolic expression to %.12g" % (got, want))
         else:
             size = o.shape[0]
+            if "seen_aux" not in locals():
+                seen_aux = [getattr(wrapper, "G", None)]
             if ptr >= len(cons) or type(cons[ptr]).__name__ != "PSD":
                 F("cvxpy_lmi_missing", "LMI not emitted as a PSD constraint")
                 break
@@ -99,6 +101,10 @@ def validate_cvxpy(wrapper, rec, rng):
             if M is None or M.shape != (size, size):
                 F("cvxpy_lmi_shape", "auxiliary matrix of shape %r for an LMI of size %d" % (None if M is None else M.shape, size))
                 continue
+            # every LMI has its OWN auxiliary matrix (two LMIs on one matrix are tied entry by entry: a constraint nobody declared)
+            if any(M is other for other in seen_aux):
+                F("cvxpy_lmi_auxiliary_matrix_shared", "two LMIs are coupled with the same auxiliary matrix variable")
+            seen_aux.append(M)
             if size == 0:
                 continue     # empty LMI (a linear-operator class without samples): nothing to couple
             A = np.array([[rng.uniform(-1, 1) for _ in range(size)] for _ in range(size)])
